@@ -18,7 +18,7 @@ CHECKS = {
    note="The judged program is Polar's normalized program as exported; its equivalence with the source is C02."),
  "C04": dict(level=MC, design="7/C04", technique="TLC enumerates complete families of small linear systems (spec/LinRecFamily.tla) replayed into Polar's solvers; returned closed forms trace-validated against the machine x'=Ax+b (spec/LinRec.tla)",
    text="All 2x2 integer systems over {-2..2} x vectors over {-1,0,1} (and inhomogeneous / 3x3 families) are enumerated by TLC with their exact behaviours; Polar's acyclic and forced cyclic solver, exact and numeric root modes, must reproduce every component at n = 0..9, which by the order bound decides all n for exact closed forms. Fixed families cover nilpotent, Jordan, complex, irrational, parametric cases.",
-   note="Quick tier replays a seeded sample of the enumerated family; numeric modes use a stated tolerance."),
+   note="TLC enumerates the complete families; the replay into Polar takes a seeded sample of them (300 systems quick, 4300 thorough) plus the fixed families; numeric modes use a stated tolerance."),
  "X05": dict(level=MC, design="7/C05", technique="TLC executes the normalized program under the IR semantics and evaluates the type invariant on every intermediate store of every path and iteration",
    text="Inferred Finite types (not user-declared ones) must contain the value of the variable in every store that exists after any assignment in any iteration, including frozen iterations after the guard became false; type_fp_iterations in {100,1} quick, {100,1,2} thorough. The fixed-point typer itself is a machine (spec/Typer.tla, one action per sweep): the state recorded after every real sweep must equal the model's.",
    note="Depth-bounded for infinite-state programs; exhaustive over paths up to N iterations."),
